@@ -44,6 +44,20 @@ fn gen(rng: &mut Rng, idx: u64, tier: Tier) -> Case {
         4 => args.push(format!("--filter={}", rng.pick(&[1u32, 7, 19, 24, 31, 99, 32, 36, 37, 43, 49, 50, 52, 53, 4 + 256, 17 + 65536]))),
         _ => { for k in nine { if rng.chance(0.5) { args.push(format!("--filter={}", k)); } } }
     }
+    if idx % 4000 == 9 {
+        // a very crowded sky: well over a thousand aircraft, one frame each in big reads; the refresh comes at the end
+        let n = rng.range(1_050, 1_600) as usize;
+        let base = (rng.bits(24) as u32 | 0x400000) & 0xFFF000;
+        let mut many: Vec<gen::Ac> = (0..n).map(|i| gen::aircraft(rng, base + 1 + i as u32)).collect();
+        let kind = *rng.pick(&[Kind::Df11, Kind::AirPos, Kind::Df4]);
+        let tag = format!("{:?}", kind).to_lowercase();
+        let mut ops = vec![];
+        let mut done = 0;
+        while done < n { let k = (n - done).min(512); ops.push(Op::Data { dt_us: 0, bytes: crate::script::Bytes(gen::blob_of(rng, &mut many[done..done + k], k, kind)), tag: tag.clone() }); done += k; }
+        for _ in 0..3 { ops.push(Op::Data { dt_us: 2_000_000, bytes: crate::script::Bytes(gen::blob_of(rng, &mut many[..1], 1, kind)), tag: tag.clone() }); }
+        let script = Script::file(vec!["--delete-after=600".into(), "--count-df".into(), "--update=0".into()], ops);
+        return Case { property: "C16".into(), mode: "many-aircraft".into(), script, args_b: None, log_level_b: None, meta: serde_json::Value::Null };
+    }
     if idx % 4000 == 7 {
         // one very long single-format stream: counts beyond 16 bits; the only refresh comes at the end
         let addrs = gen::addresses(rng, 2);
@@ -69,9 +83,12 @@ fn gen(rng: &mut Rng, idx: u64, tier: Tier) -> Case {
         return Case { property: "C16".into(), mode: "long".into(), script, args_b: None, log_level_b: None, meta: serde_json::Value::Null };
     }
     let long = rng.chance(0.02);
+    // now and then the stream visits every one of the 32 downlink formats (a long counter line)
+    let all_formats = !long && rng.chance(0.03);
+    let mut next_df = 0u64;
     if rng.chance(0.08) { args.push(format!("--display-info={}", rng.pick(&["Q", "aQ", "Qe"]))); }
     gen::add_neutral_options(rng, &mut args, false, false);
-    let n = if long || (tier == Tier::Thorough && rng.chance(0.05)) { rng.range(270, 700) } else { rng.range(3, 60) } as usize;
+    let n = if long || (tier == Tier::Thorough && rng.chance(0.05)) { rng.range(270, 700) } else if all_formats { rng.range(50, 110) } else { rng.range(3, 60) } as usize;
     let mut lines: Vec<(i64, Vec<u8>, String)> = vec![];
     let mono = *rng.pick(&[Kind::Df11, Kind::AirPos, Kind::Df4, Kind::Df20(gen::Reg::B20)]);
     for _ in 0..n {
@@ -83,6 +100,18 @@ fn gen(rng: &mut Rng, idx: u64, tier: Tier) -> Case {
             continue;
         }
         let a = rng.below(n_ac as u64) as usize;
+        if all_formats && rng.chance(0.7) {
+            let df = next_df % 32;
+            next_df += 1;
+            let f = match df {
+                0 => gen::frame(rng, &mut acs[a], Kind::Df0, true), 4 => gen::frame(rng, &mut acs[a], Kind::Df4, true), 5 => gen::frame(rng, &mut acs[a], Kind::Df5, true),
+                11 => gen::frame(rng, &mut acs[a], Kind::Df11, true), 16 => gen::frame(rng, &mut acs[a], Kind::Df16, true), 17 => gen::frame(rng, &mut acs[a], Kind::Ident, true),
+                18 => gen::frame(rng, &mut acs[a], Kind::Df18, true), 20 => gen::frame(rng, &mut acs[a], Kind::Df20(gen::Reg::B20), true), 21 => gen::frame(rng, &mut acs[a], Kind::Df21(gen::Reg::B20), true),
+                other => gen::other_df_frame(rng, &acs[a], other),
+            };
+            lines.push((if upd > 0 { 400_000 } else { 0 }, gen::line_of(rng, &f, false), format!("df{}", df)));
+            continue;
+        }
         let dt = if upd > 0 { *rng.pick(&[0i64, 300_000, 999_999, 1_000_000, 1_000_001, (upd + 1) * 1_000_000, upd * 1_000_000 + 999_999]) } else { gen::gap_us(rng, d).min(2_000_000) };
         let (b, tag): (Vec<u8>, String) = match rng.below(12) {
             0 => { let k = *rng.pick(gen::JUNK_KINDS); (gen::junk(rng, k), format!("junk:junk-{}", k)) }
@@ -118,6 +147,7 @@ fn gen(rng: &mut Rng, idx: u64, tier: Tier) -> Case {
             lines[i].2 = format!("{}:after-silence", lines[i].2.split(':').next().unwrap_or(""));
         }
     }
+    gen::long_uptime(rng, &mut lines, 0.03);
     let ch = *rng.pick(&[Chunking::Line, Chunking::Line, Chunking::Line, Chunking::Pieces, Chunking::Multi]);
     let mut script = Script::file(args, vec![]);
     script.tcp = rng.chance(0.3);
